@@ -179,11 +179,39 @@ func rulesC07(c *Ctx) {
 		sc := c.Fn(pM, "Server", "Connect")
 		g := sc.Graph()
 		fsv := c.FnObj(pM, "", "filterSupportedVersions")
-		sv := c.Field(pM, "ServerSession", "supportedVersions")
+		// where the transport-filtered list is kept: found by role (the field that receives the result of
+		// filterSupportedVersions(t), directly or through a local), and it must be per-session state
+		var sv *types.Var
+		fsvLocal := sc.VarFromCall(fsv, 0)
+		fromFilter := func(e ast.Expr) bool {
+			if e == nil {
+				return false
+			}
+			if ce, ok := ast.Unparen(e).(*ast.CallExpr); ok && sc.IsCallTo(ce, fsv) {
+				return sc.ObjOf(ce.Args[0]) == types.Object(sc.ParamOfNamed(pM, "Transport"))
+			}
+			if fsvLocal != nil && sc.ObjOf(e) == fsvLocal {
+				if _, isField := fsvLocal.(*types.Var); isField && !fsvLocal.(*types.Var).IsField() {
+					for _, call := range sc.CallsIn(sc.Body, fsv, false) {
+						return sc.ObjOf(call.Args[0]) == types.Object(sc.ParamOfNamed(pM, "Transport"))
+					}
+				}
+			}
+			return false
+		}
+		for _, w := range Writes(sc.Body, false) {
+			if sel, isSel := ast.Unparen(w.LHS).(*ast.SelectorExpr); isSel && fromFilter(w.RHS) {
+				if fld, isF := sc.ObjOf(sel).(*types.Var); isF && fld.IsField() {
+					sv = fld
+					c.Check(isNamedType(sc.TypeOf(sel.X), modPath+"/"+pM, "ServerSession"), "Server.Connect:filtered-versions-are-per-session", sc, w.Stmt, "the list of versions the transport can serve is stored in the session created for that transport (it is written to %s): state shared by all sessions of a server would let one connection's transport decide what another session's discover advertises", sc.FieldPath(sel))
+				}
+			}
+		}
+		c.Need(sv != nil, "Server.Connect: a field that receives filterSupportedVersions(t)")
 		okStore := false
 		for _, w := range Writes(sc.Body, false) {
 			if sc.IsField(w.LHS, sv) && w.RHS != nil {
-				if ce, ok := ast.Unparen(w.RHS).(*ast.CallExpr); ok && sc.IsCallTo(ce, fsv) && sc.ObjOf(ce.Args[0]) == types.Object(sc.ParamOfNamed(pM, "Transport")) {
+				if fromFilter(w.RHS) {
 					wv := g.VertexOf(w.Stmt)
 					all := true
 					for _, r := range sc.Returns() {
@@ -224,7 +252,12 @@ func rulesC07(c *Ctx) {
 				v := disc.ObjOf(kv.Value)
 				for _, w := range Writes(disc.Body, false) {
 					if disc.ObjOf(w.LHS) == v && w.RHS != nil && disc.IsField(w.RHS, sv) {
-						okD = true
+						// … of the session the request arrived on
+						if sel, isSel := ast.Unparen(w.RHS).(*ast.SelectorExpr); isSel {
+							if nm, on := disc.SelectorOn(sel.X, disc.NonRecvParams()[len(disc.NonRecvParams())-1]); on && nm == "Session" {
+								okD = true
+							}
+						}
 					}
 				}
 			}
